@@ -213,7 +213,22 @@ def opDec (args : List Sexp) : String :=
     | _, _, _, _, _ => "bad-op"
   | _ => "bad-op"
 
+/-- `tables <module>`: what the model's tables of the `codec` group make of every byte (between two `A`s: a path key that is exactly `.` is special),
+of the empty string and of the empty array, per ROR2 flavour — the harness derives the same text
+from the running writers, so agreement confirms the whole of each table -/
+def opTables (args : List Sexp) : String :=
+  match args with
+  | [.atom m] =>
+    let (ps, qs, hs) := gens m
+    let em := if m == "root" then GenRoot.emptyMarker else Gen.emptyMarker
+    let lp := if m == "root" then GenRoot.listPrefix else Gen.listPrefix
+    let one (name : String) (esc : Bytes → Bytes) : String :=
+      name ++ "=" ++ ",".intercalate ((List.range 256).map (fun b => toHex (esc [65, UInt8.ofNat b, 65]))) ++ ";"
+        ++ name ++ "-empty=" ++ toHex em ++ ";" ++ name ++ "-list=" ++ toHex (lp ++ [41]) ++ ";"
+    one "path" (Escape.escapeWith ps) ++ one "query" (Escape.escapeWith qs) ++ one "header" (Escape.replaceWith hs)
+  | _ => "bad-op"
+
 -- driver-ops: Restli.Codec.ops
-def ops : List (String × (List Sexp → String)) := [("enc", opEnc), ("dec", opDec)]
+def ops : List (String × (List Sexp → String)) := [("enc", opEnc), ("dec", opDec), ("tables", opTables)]
 
 end Restli.Codec
